@@ -10,6 +10,7 @@ import Vicut.Model.Reader
 import Vicut.Model.Files
 import Vicut.Model.Text
 import Vicut.Model.Field
+import Vicut.Model.Undo
 
 open Lean Vicut
 
@@ -169,6 +170,28 @@ def opField (req : Json) : Json :=
   | .error .panic => Json.mkObj [("panic", true)]
   | .error .sliceFailed => Json.mkObj [("err", "Failed to slice buffer")]
 
+def ueditJson (e : UEdit) : Json := Json.arr #[J e.old, J e.new, e.merging]
+
+def ustateJson (s : UState) : Json :=
+  -- stacks are printed bottom first, like the Rust `Vec`s
+  Json.mkObj [("text", J s.text), ("undo", Json.arr (s.undo.reverse.map ueditJson).toArray),
+              ("redo", Json.arr (s.redo.reverse.map ueditJson).toArray)]
+
+/-- `{"op":"undo_machine","text":t,"ops":[["cmd",charInsert,after]|["undo"]|["redo"],..]}`: the state
+after every operation. -/
+def opUndoMachine (req : Json) : Json :=
+  let ops : List UOp := (jarr req "ops").toList.filterMap fun o =>
+    match o with
+    | .arr #[.str "cmd", .bool ci, .str after] => some (.cmd ci after.toList)
+    | .arr #[.str "undo"] => some .undo
+    | .arr #[.str "redo"] => some .redo
+    | _ => none
+  let s0 : UState := { text := (jstr req "text").toList }
+  let (_, states) := ops.foldl (fun (acc : UState × List Json) op =>
+    let s' := ustep acc.1 op
+    (s', acc.2 ++ [ustateJson s'])) (s0, [])
+  Json.mkObj [("states", Json.arr states.toArray)]
+
 def dispatch (req : Json) : Json :=
   match jstr req "op" with
   | "ping" => Json.mkObj [("pong", true)]
@@ -179,6 +202,7 @@ def dispatch (req : Json) : Json :=
   | "inplace" => opInplace req
   | "geometry" => opGeometry req
   | "field" => opField req
+  | "undo_machine" => opUndoMachine req
   | "global" => opGlobal req
   | op => Json.mkObj [("err", Json.str s!"unknown op {op}")]
 
